@@ -86,6 +86,7 @@ type c9Served struct {
 	stream string // stream id of a media response ("" otherwise)
 	pays   []int  // payload ids of the access units inside a media response (decoded by the harness with mediacommon)
 	media  bool
+	zero   bool // 200 with an empty body (a preload hint whose part was unregistered meanwhile: the placeholder finds no handler)
 }
 
 // c9DecodeMedia lists the payload ids carried by a served segment / part.
@@ -470,8 +471,9 @@ func (t *c9Transport) RoundTrip(req *http.Request) (*http.Response, error) {
 					n += len(pt.Samples)
 				}
 			}
-			sv.empty = n == 0
+			sv.empty = n == 0 && len(body) > 0
 		}
+		sv.zero = len(body) == 0
 	}
 	if res.StatusCode == 200 && strings.HasSuffix(req.URL.Path, ".ts") {
 		sv.empty = c9TSLacksTrack(body, len(t.r.tracks))
